@@ -13,7 +13,7 @@ pub fn get_grammar_hash(src: RustSrcRef) -> /*@[*/(r: /*@]*/Option<&str>/*@[*/)/
 {
     const HASH_PREFIX: &/*@[*/'static /*@]*/str = "// @sha256 ";
     //@[ proof
-    proof { reveal_strlit("// @sha256 "); reveal_strlit("//"); }
+    proof { reveal_strlit("// @sha256 "); reveal_strlit("//"); lemma_hash_prefix_is_comment(); }
     //@]
     for line in /*@[*/it: /*@]*//*@{ T5_lines*//*@- src.0.lines() *//*@|*/__vx_lines(src.0)/*@}*/
         //@[ C15 loop invariant: no earlier line decided the scan
@@ -23,6 +23,7 @@ pub fn get_grammar_hash(src: RustSrcRef) -> /*@[*/(r: /*@]*/Option<&str>/*@[*/)/
             forall|i: int| 0 <= i < it.seq().len() ==> (#[trigger] it.seq()[i])@ == spec_lines(src.0@)[i],
             HASH_PREFIX@ == "// @sha256 "@,
             "// @sha256 "@.len() == 11,
+            forall|l: Seq<char>| #[trigger] is_prefix("// @sha256 "@, l) ==> is_prefix("//"@, l),
         //@]
     {
         if !line.starts_with("//") {
